@@ -647,11 +647,6 @@ class MacroProgram(ElementProgram):
             slot = nodes.UseInternalMacro(clause)
             ON_ERROR = skip
 
-        slot = wrap(
-            slot,
-            NAME
-        )
-
         clause = ns.get((META, 'interpolation'))
         if clause in ('false', 'off'):
             INTERPOLATION = False
@@ -687,8 +682,11 @@ class MacroProgram(ElementProgram):
         if use_macro or extend_macro:
             self._use_macro.pop()
 
+        # The name block of a translation captures what the element
+        # writes, the fallback of tal:on-error included.
         return wrap(
             slot,
+            NAME,
             ON_ERROR
         )
 
